@@ -26,14 +26,16 @@ def registered():
 
 def do_import():
     os.makedirs(SEEDED, exist_ok=True)
-    for conf in sorted(glob.glob("/tmp/seed/*/confirm.txt")):
+    for conf in sorted(glob.glob("/tmp/seed/*/confirm.txt")) + sorted(glob.glob("/tmp/seed2/*/confirm.txt")):
+        base = os.path.dirname(os.path.dirname(conf))
+        rnd = "-r2" if base.endswith("seed2") else ""
         for line in open(conf):
             if "=> CONFIRMED" not in line:
                 continue
             tag = line.split(":")[0]
             pid, m = tag.split("/")
-            src = f"/tmp/seed/{pid}/out/{m}"
-            dst = os.path.join(SEEDED, f"{pid}-{m}")
+            src = f"{base}/{pid}/out/{m}"
+            dst = os.path.join(SEEDED, f"{pid}{rnd}-{m}")
             if os.path.exists(dst):
                 continue
             shutil.copytree(src, dst)
@@ -42,7 +44,7 @@ def do_import():
                 meta = json.load(open(meta_p))
             except Exception:
                 meta = {}
-            meta["seed_id"] = f"{pid}-{m}"
+            meta["seed_id"] = os.path.basename(dst)
             meta["breaks_property"] = pid
             meta["confirmed_by_main_session"] = {
                 "how": "selftest/confirm_seed.sh in the agent's scratch worktree of /repo HEAD: demo passes on the pristine tree; with patch.diff applied `cargo build --offline` succeeds, `cargo test --offline` gives 59 passed / 0 failed, the demo exits non-zero; worktree restored",
